@@ -647,6 +647,8 @@ pub struct StackCfg {
     pub init_tsn_a: Option<u32>,
     pub init_tsn_b: Option<u32>,
     pub max_hold_ms: u64,
+    /// INIT collision: both endpoints act as SCTP clients (both send INIT), as browsers do
+    pub both_init: bool,
 }
 
 impl Default for StackCfg {
@@ -664,6 +666,7 @@ impl Default for StackCfg {
             init_tsn_a: None,
             init_tsn_b: None,
             max_hold_ms: 300,
+            both_init: false,
         }
     }
 }
@@ -707,6 +710,9 @@ impl StackCfg {
         }
         if let Some(x) = u("max_hold_ms") {
             c.max_hold_ms = x;
+        }
+        if let Some(x) = v.get("both_init").and_then(|x| x.as_bool()) {
+            c.both_init = x;
         }
         c
     }
@@ -856,13 +862,15 @@ async fn build_endpoint(
     }
     let (dc_tx, dc_rx) = mpsc::unbounded_channel();
     let rtc = cfg.rtc(&name.to_string());
-    let (sctp, runner) = SctpTransport::new(dtls.clone(), incoming_rx, list.clone(), 5000, 5000, Some(dc_tx), is_client, &rtc);
+    let sctp_client = is_client || cfg.both_init;
+    let (sctp, runner) = SctpTransport::new(dtls.clone(), incoming_rx, list.clone(), 5000, 5000, Some(dc_tx), sctp_client, &rtc);
     tasks.push(tokio::spawn(runner));
     Endpoint { name, sock, conn, dtls, sctp, chans: list, local, new_dc_rx: Some(dc_rx), tasks }
 }
 
 /// Build A (DTLS/SCTP client) and B (server) joined by the proxy; the association starts at once.
 pub async fn build_pair(cfg: &StackCfg, chans: &[ChanSpec], faults: Vec<Fault>) -> Pair {
+    rustrtc::verif::set_override("sctp_inst_by_label", Some(1));
     rustrtc::verif::set_override("sctp_initial_tsn_client", cfg.init_tsn_a.map(|v| v as i64));
     rustrtc::verif::set_override("sctp_initial_tsn_server", cfg.init_tsn_b.map(|v| v as i64));
     let sa = bind().await;
